@@ -69,7 +69,12 @@ fn msg_bytes(id: u64, n: u64) -> Vec<u8> {
 struct World {
     ends: [Btp; 2],
     chan: [VecDeque<Vec<u8>>; 2],
-    submitted: Vec<(u64, Vec<u8>)>,
+    /// (id, bytes, sending end, fetched by the peer's application)
+    submitted: Vec<(u64, Vec<u8>, usize, bool)>,
+    /// GATT MTU given to both ends (None: the minimum, 20 bytes of payload per segment)
+    mtu: Option<u16>,
+    /// the initiator's handshake request is rewritten to ask for `wnd`
+    override_wnd: bool,
     last_tx_seq: [i64; 2],
     last_rx_seq: [i64; 2],
     est: [bool; 2],
@@ -109,6 +114,8 @@ impl World {
             unacked_rx: [0, 0],
             wnd: WND,
             panicked: false,
+            mtu: None,
+            override_wnd: true,
         };
         w.ends[0].set_initiator(true);
         w
@@ -119,7 +126,7 @@ impl World {
     /// process_outgoing on end i; returns what went out
     fn poll(&mut self, tr: &mut Trace, i: usize) -> &'static str {
         let mut buf = [0u8; 512];
-        let r = catch(|| self.ends[i].process_outgoing(None, &mut buf));
+        let r = catch(|| self.ends[i].process_outgoing(self.mtu, &mut buf));
         match r {
             Err(p) => {
                 self.panicked = true;
@@ -137,7 +144,9 @@ impl World {
                 let mut w = 0;
                 if h.hs {
                     if i == 0 && bytes.len() == 9 {
-                        bytes[8] = self.wnd; // a peer asking for a small window (well-behaved)
+                        if self.override_wnd {
+                            bytes[8] = self.wnd;
+                        } // a peer asking for a small window (well-behaved)
                     } else if bytes.len() == 6 {
                         w = bytes[5];
                     }
@@ -163,7 +172,7 @@ impl World {
         }
     }
     fn incoming(&mut self, i: usize, bytes: &[u8]) -> Result<bool, String> {
-        catch(|| self.ends[i].process_incoming(None, ADDR, bytes)).map(|r| r.is_ok())
+        catch(|| self.ends[i].process_incoming(self.mtu, ADDR, bytes)).map(|r| r.is_ok())
     }
     fn deliver(&mut self, tr: &mut Trace, i: usize) -> Option<&'static str> {
         let bytes = self.chan[i].pop_front()?;
@@ -218,14 +227,24 @@ impl World {
                 false
             }
             Ok(Some(Ok((len, _)))) => {
-                let id = self.submitted.iter().find(|(_, b)| b[..] == buf[..len]).map(|(id, _)| *id as i64).unwrap_or(-1);
+                // the oldest message of the peer with exactly these bytes that has not come out yet
+                let hit = self.submitted.iter_mut().find(|m| m.2 == 1 - i && !m.3 && m.1[..] == buf[..len]);
+                let id = match hit {
+                    Some(m) => {
+                        m.3 = true;
+                        m.0 as i64
+                    }
+                    None => -1,
+                };
                 tr.ev(json!({"ev": "Fetch", "e": nm(i), "id": id, "len": len}));
                 true
             }
         }
     }
     fn send(&mut self, tr: &mut Trace, i: usize, id: u64, n: u64) -> bool {
-        let data = msg_bytes(id, n);
+        self.send_bytes(tr, i, id, msg_bytes(id, n))
+    }
+    fn send_bytes(&mut self, tr: &mut Trace, i: usize, id: u64, data: Vec<u8>) -> bool {
         match catch(|| poll_once(self.ends[i].send(&data, ADDR))) {
             Err(p) => {
                 self.panicked = true;
@@ -233,7 +252,7 @@ impl World {
                 false
             }
             Ok(Some(Ok(()))) => {
-                self.submitted.push((id, data));
+                self.submitted.push((id, data, i, false));
                 tr.ev(json!({"ev": "Submit", "e": nm(i), "id": id}));
                 true
             }
@@ -336,6 +355,12 @@ pub fn run(args: &[String]) -> i32 {
     }
     behaviours.push(json!([{"op": "PartialAcks", "e": "R", "n": arg_u64(args, "--partial-acks", 400)}]));
     behaviours.push(json!([{"op": "PartialAcks", "e": "I", "n": arg_u64(args, "--partial-acks", 400)}]));
+    let big_steps = arg_u64(args, "--big-steps", 3000);
+    for r in 0..arg_u64(args, "--big-runs", 4) {
+        // GATT MTUs from the minimum to the maximum the handshake can carry (segment sizes 20 .. 244)
+        let mtu = [23u64, 24, 27, 40, 64, 100, 128, 185, 200, 247, 512][(r % 11) as usize];
+        behaviours.push(json!([{"op": "BigSegments", "mtu": mtu, "n": big_steps, "seed": seed * 1000 + r}]));
+    }
     behaviours.push(json!([{"op": "Overrun", "e": "R"}]));
     behaviours.push(json!([{"op": "Overrun", "e": "I"}]));
     let mut tr = Trace::create(&out);
@@ -473,6 +498,80 @@ pub fn run(args: &[String]) -> i32 {
                     }
                     true
                 }
+                "BigSegments" => {
+                    // every negotiated segment size and window, every message length: both ends get the GATT MTU of the
+                    // schedule, the window is what the two real ends negotiate, messages of 0 .. the maximum length are
+                    // streamed in both directions under seeded random scheduling, with stretches in which the application
+                    // of one end does not pick anything up (its transport still polls and acknowledges)
+                    let mut rng = crate::util::Rng::new(op["seed"].as_u64().unwrap());
+                    let n = op["n"].as_u64().unwrap();
+                    w.mtu = op["mtu"].as_u64().map(|m| m as u16);
+                    w.override_wnd = false;
+                    let max = rs_matter::transport::network::MAX_TX_PACKET_SIZE;
+                    let mut next_id = [400_000u64, 500_000u64];
+                    let mut stalled = [false, false];
+                    let streamer = rng.below(2) as usize;
+                    for k in 0..n {
+                        if w.panicked {
+                            break;
+                        }
+                        if k % 40 == 0 {
+                            stalled = [rng.below(3) == 0, rng.below(3) == 0];
+                        }
+                        match rng.below(20) {
+                            0..=3 => {
+                                // one end streams large messages, the other one answers with small ones
+                                let i = if rng.below(4) == 0 { 1 - streamer } else { streamer };
+                                let len = if i == streamer {
+                                    match rng.below(6) {
+                                        0 => rng.below(4) as usize,
+                                        1 => max - rng.below(3) as usize,
+                                        2 => rng.below(max as u64 + 1) as usize,
+                                        _ => max,
+                                    }
+                                } else {
+                                    rng.below(30) as usize
+                                };
+                                let id = next_id[i];
+                                let data: Vec<u8> = (0..len).map(|j| match j {
+                                    0 => id as u8,
+                                    1 => (id >> 8) as u8,
+                                    2 => (id >> 16) as u8,
+                                    _ => (id as usize * 7 + j) as u8 ^ (j >> 8) as u8,
+                                }).collect();
+                                if w.send_bytes(&mut tr, i, id, data) {
+                                    next_id[i] += 1;
+                                }
+                            }
+                            4..=9 => {
+                                w.poll(&mut tr, rng.below(2) as usize);
+                            }
+                            10..=16 => {
+                                let i = rng.below(2) as usize;
+                                if w.deliver(&mut tr, i).is_none() {
+                                    w.deliver(&mut tr, 1 - i);
+                                }
+                            }
+                            _ => {
+                                let i = rng.below(2) as usize;
+                                if !stalled[i] {
+                                    w.fetch(&mut tr, i);
+                                }
+                            }
+                        }
+                        if k % 400 == 399 {
+                            // the acknowledgement timers of both ends run out (applications still stalled or not)
+                            sim::advance_us(16_000_000);
+                            for _ in 0..4 {
+                                for i in 0..2 {
+                                    w.poll(&mut tr, i);
+                                    while w.deliver(&mut tr, i).is_some() {}
+                                }
+                            }
+                        }
+                    }
+                    true
+                }
                 "Overrun" => {
                     // complete the handshake, then feed stand-alone acks with correct sequence numbers without ever
                     // letting the victim acknowledge: the (W+1)-th one overruns its receive window
@@ -521,6 +620,9 @@ pub fn run(args: &[String]) -> i32 {
                     break;
                 }
                 tr.ev(json!({"ev": "Tick", "t": w.t()}));
+            }
+            if !w.panicked {
+                tr.ev(json!({"ev": "End"}));
             }
         }
     }
